@@ -10,6 +10,7 @@ import Driver.Ops.Finish
 import Driver.Ops.Mfe
 import Driver.Ops.GcFloat
 import Driver.Ops.Ssm
+import Driver.Ops.SsmChecked
 import Driver.Ops.Subst
 import Driver.Ops.ParseComp
 import Driver.Ops.ParsePil
@@ -32,6 +33,7 @@ def handlers : List (String → Json → Option Json) := [
   MfeOps.handle?,
   GcFloatOps.handle?,
   Ssm.handle?,
+  SsmCheckedOps.handle?,
   Subst.handle?,
   ParseCompOps.handle?,
   ParsePilOps.handle?,
